@@ -9,7 +9,7 @@ at most product * 2^-50. Cases whose cap comparison would depend on such a round
 generated. The timing side (real sleeping, cancellation during the delay, attempt counts of real
 processes) belongs to the end-to-end rig."""
 import json, os
-import vlib
+import vlib, gen_tie
 from vlib import coq_list, coq_bool
 from props import retry_rig as rig
 
@@ -471,6 +471,10 @@ def run(tier, seed):
             vlib.gate_or_violation(chk, gate)
     else:
         vlib.gate_or_violation(chk, gate)
+    # DESIGN 11.7 (second round): these decisions are regenerated from the Rust source and proved equal to the
+    # model's for all inputs; a failure is reported when the check finishes unless a stage below finds a
+    # concrete failing input
+    gen_tie.gate(chk, ['after_attempt', 'attempt_loop', 'retry_policy', 'forced_retries'], gate)
     binary, err = vlib.build_harness()
     if binary is None:
         chk.violation("broken-obligation", "harness-build", dict(error=err), no_input=True)
